@@ -103,6 +103,11 @@ class C01(CheckBase):
             # one-byte dribble / tiny chunks
             frames = gen_frames(rng, short=True)
             yield helper_scn(rng, frames, {"mode": "sizes", "sizes": [pick(rng, [1, 1, 2, 3])], "gap": pick(rng, [0.0, 0.001])})
+        elif r == 6 and rng.random() < 0.5:
+            # a flood: thousands of tiny frames piled up (event-loop stall, fast sender) and handed over in one read
+            n = pick(rng, [1100, 2500, 4000])
+            frames = [{"type": pick(rng, [1, 7, 8, 25, 127, 128]), "payload_gen": [pick(rng, [0, 0, 1, 2]), rng.getrandbits(24)]} for _ in range(n)]
+            yield helper_scn(rng, frames, pick(rng, [{"mode": "coalesce"}, {"mode": "sizes", "sizes": [pick(rng, [3000, 65536])]}]))
         elif r in (4, 5, 6):
             # random multi-cut plans, many frames per chunk, several bursts
             frames = gen_frames(rng, short=False)
